@@ -76,10 +76,15 @@ class SubstituteInterpretation(Interpretation):
             else:
                 fresh = frozenset()  # a helper compound that got evaluated
             fresh_subs = tuple(
-                (k, v) for k, v in self.subs if k in fresh and k in expr.fresh
+                (k, v) for k, v in self.subs if k in fresh and k in expr.inputs
             )
-            if fresh_subs:
-                expr = instrument.debug_logged(expr.eager_subs)(fresh_subs)
+            if all(k in expr.fresh for k, v in fresh_subs):
+                if fresh_subs:
+                    expr = instrument.debug_logged(expr.eager_subs)(fresh_subs)
+            else:
+                # The node was evaluated to a term that no longer introduces
+                # these names itself, e.g. a lazy MarkovProduct to a Contraction.
+                expr = Subs(expr, fresh_subs)
             if instrument.PROFILE:
                 instrument.COUNTERS["interpretation"]["substitute"] += 1
             return expr
